@@ -86,9 +86,17 @@ Pre(d) == LET kind == d[1]  a == d[2]  i == d[3] IN
     [] kind = "wholesighash" -> PreWholeSigHash(EraPrefix(EraHeight[i], Net), V1Txns[a], 1)
     [] kind = "partialsighash" -> PrePartialSigHash(EraPrefix(EraHeight[i], Net), V1Txns[a], CoverInput(a))
 
+\* the documented legacy corner: without inputs there is no place for the era prefix
+T4 == [T0 EXCEPT !.FileContractRevisions = <<[ParentID |-> P(5), UnlockConditions |-> UC,
+          FileContract |-> [RevisionNumber |-> W0, Filesize |-> W0, FileMerkleRoot |-> P(0), WindowStart |-> W0, WindowEnd |-> W0,
+                            ValidProofOutputs |-> <<>>, MissedProofOutputs |-> <<>>, UnlockHash |-> P(0)]]>>,
+       !.Signatures = <<SigOf(5)>>]
+LegacyCorner == \A i \in 1..4 : PreWholeSigHash(EraPrefix(EraHeight[i], Net), T4, 1) = PreWholeSigHash(<<>>, T4, 1)
+
 IsBytes(s) == \A j \in 1..Len(s) : s[j] \in 0..255
 PreOf == [d \in Derivations |-> Pre(d)]       \* evaluated once
-Distinct == /\ \A d \in Derivations : IsBytes(PreOf[d])
+Distinct == /\ LegacyCorner
+            /\ \A d \in Derivations : IsBytes(PreOf[d])
             /\ \A d1, d2 \in Derivations : d1 # d2 => PreOf[d1] # PreOf[d2]
 
 VARIABLE done
